@@ -192,6 +192,13 @@ Fixpoint find_method (P : prog) (classes : list string) (m : string) : option (s
               end
   end.
 
+(* "REPL.runsource" -> Some "REPL"; "hy_eval_user" -> None *)
+Fixpoint before_dot (s : string) : option string :=
+  match s with
+  | EmptyString => None
+  | String c r => if Ascii.eqb c (Ascii.Ascii false true true true false true false false) then Some EmptyString else option_map (String c) (before_dot r)
+  end.
+
 (* bind parameters: positionals, then keywords, then defaults *)
 Fixpoint bind_params (ps : list (string * option const)) (args : list val) (kw : list (string * val)) : option env :=
   match ps with
@@ -209,6 +216,27 @@ Fixpoint bind_params (ps : list (string * option const)) (args : list val) (kw :
           end
       end
   end.
+
+(* The interpreter is written with open recursion: every [*_step] function takes the
+   record of interpreters of the next-smaller fuel.  [interp] ties the knot.  (This
+   keeps each step a non-recursive definition, which is what makes controlled
+   symbolic execution of generated terms possible in proofs.) *)
+Record recs := {
+  r_eval : env -> expr -> st -> eres;
+  r_evals : env -> list expr -> st -> elres;
+  r_evalkw : env -> (list (string * expr)) -> st -> ((list (string * val) + eres) * st);
+  r_ocall : string -> list val -> (list (string * val)) -> st -> eres;
+  r_run_beh : beh -> list event -> eres;
+  r_call_value : val -> list val -> (list (string * val)) -> st -> eres;
+  r_call_method : val -> string -> list val -> (list (string * val)) -> st -> eres;
+  r_call_fun : string -> fundef -> list val -> (list (string * val)) -> st -> eres;
+  r_assign : env -> target -> val -> st -> sres;
+  r_assigns : env -> list target -> list val -> st -> sres;
+  r_exec : env -> stmt -> st -> sres;
+  r_handle : env -> val -> (list (list string * option string * list stmt)) -> st -> sres;
+  r_exec_for : env -> target -> list val -> list stmt -> st -> sres;
+  r_exec_block : env -> list stmt -> st -> sres
+}.
 
 Section Sem.
 Variable P : prog.
@@ -310,10 +338,7 @@ Definition iter_items (h : heap) (v : val) : option (list val) :=
   | _ => None
   end.
 
-Fixpoint eval (fuel : nat) (en : env) (e : expr) (s : st) {struct fuel} : eres :=
-  match fuel with
-  | O => ETimeout
-  | S f =>
+Definition eval_step (R : recs) (en : env) (e : expr) (s : st) : eres :=
     match e with
     | EName x => match aget x en with
                  | Some v => EOk v s
@@ -322,16 +347,16 @@ Fixpoint eval (fuel : nat) (en : env) (e : expr) (s : st) {struct fuel} : eres :
     | EGlob x => EOk (glob_get (fst s) x) s
     | EConst c => EOk (const_val c) s
     | ETuple es =>
-        match evals f en es s with
+        match r_evals R en es s with
         | LOk vs s1 => EOk (VTup vs) s1
         | LExc x s1 => EExc x s1 | LTimeout => ETimeout | LStuck m => EStuck m
         end
     | EAttr e1 a =>
-        match eval f en e1 s with
+        match r_eval R en e1 s with
         | EOk v s1 =>
             match v with
             | VRef i => match hget (fst s1) i with
-                        | Some OOpaque => ocall f "getattr" [v; VStr a] [] s1
+                        | Some OOpaque => r_ocall R "getattr" [v; VStr a] [] s1
                         | _ => get_attr (fst s1) v a s1
                         end
             | _ => get_attr (fst s1) v a s1
@@ -339,18 +364,18 @@ Fixpoint eval (fuel : nat) (en : env) (e : expr) (s : st) {struct fuel} : eres :
         | r => r
         end
     | ESub e1 k =>
-        match eval f en e1 s with
+        match r_eval R en e1 s with
         | EOk v s1 =>
-            match eval f en k s1 with
+            match r_eval R en k s1 with
             | EOk vk s2 => subscript (fst s2) v vk s2
             | r => r
             end
         | r => r
         end
     | ECmp op a b =>
-        match eval f en a s with
+        match r_eval R en a s with
         | EOk va s1 =>
-            match eval f en b s1 with
+            match r_eval R en b s1 with
             | EOk vb s2 =>
                 match op with
                 | OpIs => match val_is va vb with Some r => EOk (VBool r) s2 | None => EStuck "is on values without identity" end
@@ -374,25 +399,25 @@ Fixpoint eval (fuel : nat) (en : env) (e : expr) (s : st) {struct fuel} : eres :
         | r => r
         end
     | EAnd a b =>
-        match eval f en a s with
+        match r_eval R en a s with
         | EOk va s1 => match truthy (fst s1) va with
-                       | Some true => eval f en b s1
+                       | Some true => r_eval R en b s1
                        | Some false => EOk va s1
                        | None => EStuck "truth value of a dangling reference"
                        end
         | r => r
         end
     | EOr a b =>
-        match eval f en a s with
+        match r_eval R en a s with
         | EOk va s1 => match truthy (fst s1) va with
                        | Some true => EOk va s1
-                       | Some false => eval f en b s1
+                       | Some false => r_eval R en b s1
                        | None => EStuck "truth value of a dangling reference"
                        end
         | r => r
         end
     | ENot a =>
-        match eval f en a s with
+        match r_eval R en a s with
         | EOk va s1 => match truthy (fst s1) va with
                        | Some b => EOk (VBool (negb b)) s1
                        | None => EStuck "truth value of a dangling reference"
@@ -400,18 +425,18 @@ Fixpoint eval (fuel : nat) (en : env) (e : expr) (s : st) {struct fuel} : eres :
         | r => r
         end
     | EIf c a b =>
-        match eval f en c s with
+        match r_eval R en c s with
         | EOk vc s1 => match truthy (fst s1) vc with
-                       | Some true => eval f en a s1
-                       | Some false => eval f en b s1
+                       | Some true => r_eval R en a s1
+                       | Some false => r_eval R en b s1
                        | None => EStuck "truth value of a dangling reference"
                        end
         | r => r
         end
     | EAdd a b =>
-        match eval f en a s with
+        match r_eval R en a s with
         | EOk va s1 =>
-            match eval f en b s1 with
+            match r_eval R en b s1 with
             | EOk vb s2 => match va, vb with
                            | VStr x, VStr y => EOk (VStr (x ++ y)) s2
                            | VStr _, (VNone | VBool _ | VInt _ | VTup _) => EExc (exn "TypeError") s2
@@ -424,12 +449,12 @@ Fixpoint eval (fuel : nat) (en : env) (e : expr) (s : st) {struct fuel} : eres :
     | ECall fn args kw =>
         match fn with
         | EAttr recv m =>
-            match eval f en recv s with
+            match r_eval R en recv s with
             | EOk vr s1 =>
-                match evals f en args s1 with
+                match r_evals R en args s1 with
                 | LOk vargs s2 =>
-                    match evalkw f en kw s2 with
-                    | (inl vkw, s3) => call_method f vr m vargs vkw s3
+                    match r_evalkw R en kw s2 with
+                    | (inl vkw, s3) => r_call_method R vr m vargs vkw s3
                     | (inr r, _) => r
                     end
                 | LExc x s2 => EExc x s2 | LTimeout => ETimeout | LStuck m' => EStuck m'
@@ -437,12 +462,12 @@ Fixpoint eval (fuel : nat) (en : env) (e : expr) (s : st) {struct fuel} : eres :
             | r => r
             end
         | _ =>
-            match eval f en fn s with
+            match r_eval R en fn s with
             | EOk vf s1 =>
-                match evals f en args s1 with
+                match r_evals R en args s1 with
                 | LOk vargs s2 =>
-                    match evalkw f en kw s2 with
-                    | (inl vkw, s3) => call_value f vf vargs vkw s3
+                    match r_evalkw R en kw s2 with
+                    | (inl vkw, s3) => r_call_value R vf vargs vkw s3
                     | (inr r, _) => r
                     end
                 | LExc x s2 => EExc x s2 | LTimeout => ETimeout | LStuck m' => EStuck m'
@@ -455,119 +480,93 @@ Fixpoint eval (fuel : nat) (en : env) (e : expr) (s : st) {struct fuel} : eres :
         | Some vself, Some (VStr c) => EOk (VSuper vself c) s
         | _, _ => EStuck "super() outside a method"
         end
-    | EOpaque src => ocall f src [] [] s
-    end
-  end
+    | EOpaque src => r_ocall R src [] [] s
+    end.
 
-with evals (fuel : nat) (en : env) (es : list expr) (s : st) {struct fuel} : elres :=
-  match fuel with
-  | O => LTimeout
-  | S f =>
+Definition evals_step (R : recs) (en : env) (es : list expr) (s : st) : elres :=
     match es with
     | [] => LOk [] s
     | e :: r =>
-        match eval f en e s with
+        match r_eval R en e s with
         | EOk v s1 =>
-            match evals f en r s1 with
+            match r_evals R en r s1 with
             | LOk vs s2 => LOk (v :: vs) s2
             | x => x
             end
         | EExc x s1 => LExc x s1 | ETimeout => LTimeout | EStuck m => LStuck m
         end
-    end
-  end
+    end.
 
-with evalkw (fuel : nat) (en : env) (kw : list (string * expr)) (s : st) {struct fuel}
-  : (list (string * val) + eres) * st :=
-  match fuel with
-  | O => (inr ETimeout, s)
-  | S f =>
+Definition evalkw_step (R : recs) (en : env) (kw : list (string * expr)) (s : st) : (list (string * val) + eres) * st :=
     match kw with
     | [] => (inl [], s)
     | (k, e) :: r =>
-        match eval f en e s with
+        match r_eval R en e s with
         | EOk v s1 =>
-            match evalkw f en r s1 with
+            match r_evalkw R en r s1 with
             | (inl vs, s2) => (inl ((k, v) :: vs), s2)
             | x => x
             end
         | x => (inr x, s)
         end
-    end
-  end
+    end.
+
+(* an opaque call: ask the oracle (indexed by the number of opaque calls made so far), log the call *)
+Definition ocall_step (R : recs) (g : string) (args : list val) (kw : list (string * val)) (s : st) : eres := r_run_beh R (Orc (List.length (snd s)) g args kw (fst s)) ((g, args, kw) :: snd s).
 
 (* run what an opaque callee does; n = the call log including this call *)
-(* an opaque call: ask the oracle (indexed by the number of opaque calls made so far), log the call *)
-with ocall (fuel : nat) (g : string) (args : list val) (kw : list (string * val)) (s : st) {struct fuel} : eres :=
-  match fuel with
-  | O => ETimeout
-  | S f => run_beh f (Orc (List.length (snd s)) g args kw (fst s)) ((g, args, kw) :: snd s)
-  end
-
-with run_beh (fuel : nat) (b : beh) (n : list event) {struct fuel} : eres :=
-  match fuel with
-  | O => ETimeout
-  | S f =>
+Definition run_beh_step (R : recs) (b : beh) (n : list event) : eres :=
     match b with
     | BDone h (ORet v) => EOk v (h, n)
     | BDone h (ORaise x) => EExc x (h, n)
     | BCall h g args kw k =>
         match aget g (pfuns P) with
         | Some fd =>
-            match call_fun f g fd args kw (h, n) with
-            | EOk v (h1, n1) => run_beh f (k h1 (ORet v)) n1
-            | EExc x (h1, n1) => run_beh f (k h1 (ORaise x)) n1
+            match r_call_fun R g fd args kw (h, n) with
+            | EOk v (h1, n1) => r_run_beh R (k h1 (ORet v)) n1
+            | EExc x (h1, n1) => r_run_beh R (k h1 (ORaise x)) n1
             | r => r
             end
         | None => EStuck "callback into an unknown function"
         end
-    end
-  end
+    end.
 
-with call_value (fuel : nat) (vf : val) (args : list val) (kw : list (string * val)) (s : st) {struct fuel} : eres :=
-  match fuel with
-  | O => ETimeout
-  | S f =>
+Definition call_value_step (R : recs) (vf : val) (args : list val) (kw : list (string * val)) (s : st) : eres :=
     match vf with
     | VGlobal g =>
         match aget g (pfuns P) with
-        | Some fd => call_fun f g fd args kw s
-        | None => ocall f g args kw s
+        | Some fd => r_call_fun R g fd args kw s
+        | None => r_ocall R g args kw s
         end
     | VRef i =>
         match hget (fst s) i with
         | Some (OInst c _) =>
             match find_method P (mro_of P c) "__call__" with
-            | Some (c', fd) => call_fun f (c' ++ ".__call__") fd (vf :: args) kw s
-            | None => ocall f (c ++ ".__call__") (vf :: args) kw s
+            | Some (c', fd) => r_call_fun R (c' ++ ".__call__") fd (vf :: args) kw s
+            | None => r_ocall R (c ++ ".__call__") (vf :: args) kw s
             end
-        | Some OOpaque => ocall f "<object>.__call__" (vf :: args) kw s
+        | Some OOpaque => r_ocall R "<object>.__call__" (vf :: args) kw s
         | Some _ => EExc (exn "TypeError") s
         | None => EStuck "dangling reference"
         end
     | VNone | VBool _ | VStr _ | VInt _ | VTup _ => EExc (exn "TypeError") s
     | _ => EStuck "call of an unsupported value"
-    end
-  end
+    end.
 
-with call_method (fuel : nat) (vr : val) (m : string) (args : list val) (kw : list (string * val)) (s : st)
-  {struct fuel} : eres :=
-  match fuel with
-  | O => ETimeout
-  | S f =>
+Definition call_method_step (R : recs) (vr : val) (m : string) (args : list val) (kw : list (string * val)) (s : st) : eres :=
     match vr with
     | VRef i =>
         match hget (fst s) i with
         | Some (OInst c attrs) =>
             match aget m attrs with
-            | Some vf => call_value f vf args kw s
+            | Some vf => r_call_value R vf args kw s
             | None =>
                 match find_method P (mro_of P c) m with
-                | Some (c', fd) => call_fun f (c' ++ "." ++ m) fd (vr :: args) kw s
-                | None => ocall f (c ++ "." ++ m) (vr :: args) kw s
+                | Some (c', fd) => r_call_fun R (c' ++ "." ++ m) fd (vr :: args) kw s
+                | None => r_ocall R (c ++ "." ++ m) (vr :: args) kw s
                 end
             end
-        | Some OOpaque => ocall f ("<object>." ++ m) (vr :: args) kw s
+        | Some OOpaque => r_ocall R ("<object>." ++ m) (vr :: args) kw s
         | Some o => match kw with
                     | [] => builtin_method (fst s) i o m args s
                     | _ => EStuck "keyword arguments to a built-in method"
@@ -580,45 +579,36 @@ with call_method (fuel : nat) (vr : val) (m : string) (args : list val) (kw : li
             match hget (fst s) i with
             | Some (OInst c0 _) =>
                 match find_method P (drop_until c (mro_of P c0)) m with
-                | Some (c', fd) => call_fun f (c' ++ "." ++ m) fd (vself :: args) kw s
-                | None => ocall f ("super." ++ m) (vself :: args) kw s
+                | Some (c', fd) => r_call_fun R (c' ++ "." ++ m) fd (vself :: args) kw s
+                | None => r_ocall R ("super." ++ m) (vself :: args) kw s
                 end
             | _ => EStuck "super() of a non-instance"
             end
         | _ => EStuck "super() of a non-instance"
         end
-    | VGlobal g => call_value f (VGlobal (g ++ "." ++ m)) args kw s
+    | VGlobal g => r_call_value R (VGlobal (g ++ "." ++ m)) args kw s
     | VNone => EExc (exn "AttributeError") s
     | _ => EStuck "method call on an unsupported value"
-    end
-  end
+    end.
 
-with call_fun (fuel : nat) (name : string) (fd : fundef) (args : list val) (kw : list (string * val)) (s : st)
-  {struct fuel} : eres :=
-  match fuel with
-  | O => ETimeout
-  | S f =>
+Definition call_fun_step (R : recs) (name : string) (fd : fundef) (args : list val) (kw : list (string * val)) (s : st) : eres :=
     match bind_params (fparams fd) args kw with
     | None => EExc (exn "TypeError") s
     | Some en0 =>
-        let en1 := match index 0 "." name with
-                   | Some k => ("__class__", VStr (substring 0 k name)) :: en0
+        let en1 := match before_dot name with
+                   | Some c => ("__class__", VStr c) :: en0
                    | None => en0
                    end in
-        match exec_block f en1 (fbody fd) s with
+        match r_exec_block R en1 (fbody fd) s with
         | SR CNorm _ s1 => EOk VNone s1
         | SR (CRet v) _ s1 => EOk v s1
         | SR (CExc x) _ s1 => EExc x s1
         | STimeout => ETimeout
         | SStuck m => EStuck m
         end
-    end
-  end
+    end.
 
-with assign (fuel : nat) (en : env) (t : target) (v : val) (s : st) {struct fuel} : sres :=
-  match fuel with
-  | O => STimeout
-  | S f =>
+Definition assign_step (R : recs) (en : env) (t : target) (v : val) (s : st) : sres :=
     match t with
     | TName x => SR CNorm (aset x v en) s
     | TGlob x =>
@@ -627,9 +617,9 @@ with assign (fuel : nat) (en : env) (t : target) (v : val) (s : st) {struct fuel
         | _ => SStuck "no module dictionary"
         end
     | TSub e k =>
-        match eval f en e s with
+        match r_eval R en e s with
         | EOk vo s1 =>
-            match eval f en k s1 with
+            match r_eval R en k s1 with
             | EOk vk s2 =>
                 match vo with
                 | VRef i =>
@@ -646,7 +636,7 @@ with assign (fuel : nat) (en : env) (t : target) (v : val) (s : st) {struct fuel
         | EExc x s1 => SR (CExc x) en s1 | ETimeout => STimeout | EStuck m => SStuck m
         end
     | TAttr e a =>
-        match eval f en e s with
+        match r_eval R en e s with
         | EOk vo s1 =>
             match vo with
             | VRef i =>
@@ -662,58 +652,50 @@ with assign (fuel : nat) (en : env) (t : target) (v : val) (s : st) {struct fuel
     | TTuple ts =>
         match iter_items (fst s) v with
         | Some vs =>
-            if Nat.eqb (List.length vs) (List.length ts) then assigns f en ts vs s
+            if Nat.eqb (List.length vs) (List.length ts) then r_assigns R en ts vs s
             else SR (CExc (exn "ValueError")) en s
         | None => match v with
                   | VNone | VBool _ | VInt _ => SR (CExc (exn "TypeError")) en s
                   | _ => SStuck "unpacking an opaque value"
                   end
         end
-    end
-  end
+    end.
 
-with assigns (fuel : nat) (en : env) (ts : list target) (vs : list val) (s : st) {struct fuel} : sres :=
-  match fuel with
-  | O => STimeout
-  | S f =>
+Definition assigns_step (R : recs) (en : env) (ts : list target) (vs : list val) (s : st) : sres :=
     match ts, vs with
     | t :: ts', v :: vs' =>
-        match assign f en t v s with
-        | SR CNorm en1 s1 => assigns f en1 ts' vs' s1
+        match r_assign R en t v s with
+        | SR CNorm en1 s1 => r_assigns R en1 ts' vs' s1
         | r => r
         end
     | _, _ => SR CNorm en s
-    end
-  end
+    end.
 
-with exec (fuel : nat) (en : env) (c : stmt) (s : st) {struct fuel} : sres :=
-  match fuel with
-  | O => STimeout
-  | S f =>
+Definition exec_step (R : recs) (en : env) (c : stmt) (s : st) : sres :=
     match c with
     | SAssign t e =>
-        match eval f en e s with
-        | EOk v s1 => assign f en t v s1
+        match r_eval R en e s with
+        | EOk v s1 => r_assign R en t v s1
         | EExc x s1 => SR (CExc x) en s1 | ETimeout => STimeout | EStuck m => SStuck m
         end
     | SExpr e =>
-        match eval f en e s with
+        match r_eval R en e s with
         | EOk _ s1 => SR CNorm en s1
         | EExc x s1 => SR (CExc x) en s1 | ETimeout => STimeout | EStuck m => SStuck m
         end
     | SIf c a b =>
-        match eval f en c s with
+        match r_eval R en c s with
         | EOk vc s1 => match truthy (fst s1) vc with
-                       | Some true => exec_block f en a s1
-                       | Some false => exec_block f en b s1
+                       | Some true => r_exec_block R en a s1
+                       | Some false => r_exec_block R en b s1
                        | None => SStuck "truth value of a dangling reference"
                        end
         | EExc x s1 => SR (CExc x) en s1 | ETimeout => STimeout | EStuck m => SStuck m
         end
     | STry body handlers fin =>
-        let r1 := exec_block f en body s in
+        let r1 := r_exec_block R en body s in
         let r2 := match r1 with
-                  | SR (CExc x) en1 s1 => handle f en1 x handlers s1
+                  | SR (CExc x) en1 s1 => r_handle R en1 x handlers s1
                   | r => r
                   end in
         match fin with
@@ -721,7 +703,7 @@ with exec (fuel : nat) (en : env) (c : stmt) (s : st) {struct fuel} : sres :=
         | _ =>
             match r2 with
             | SR c2 en2 s2 =>
-                match exec_block f en2 fin s2 with
+                match r_exec_block R en2 fin s2 with
                 | SR CNorm en3 s3 => SR c2 en3 s3
                 | r => r
                 end
@@ -729,16 +711,16 @@ with exec (fuel : nat) (en : env) (c : stmt) (s : st) {struct fuel} : sres :=
             end
         end
     | SFor t e body =>
-        match eval f en e s with
+        match r_eval R en e s with
         | EOk v s1 => match iter_items (fst s1) v with
-                      | Some vs => exec_for f en t vs body s1
+                      | Some vs => r_exec_for R en t vs body s1
                       | None => SStuck "iteration over an opaque value"
                       end
         | EExc x s1 => SR (CExc x) en s1 | ETimeout => STimeout | EStuck m => SStuck m
         end
     | SReturn None => SR (CRet VNone) en s
     | SReturn (Some e) =>
-        match eval f en e s with
+        match r_eval R en e s with
         | EOk v s1 => SR (CRet v) en s1
         | EExc x s1 => SR (CExc x) en s1 | ETimeout => STimeout | EStuck m => SStuck m
         end
@@ -748,64 +730,103 @@ with exec (fuel : nat) (en : env) (c : stmt) (s : st) {struct fuel} : sres :=
         | None => SR (CExc (exn "RuntimeError")) en s
         end
     | SRaise (Some e) =>
-        match eval f en e s with
+        match r_eval R en e s with
         | EOk (VExc c i) s1 => SR (CExc (VExc c i)) en s1
         | EOk _ s1 => SStuck "raise of a non-exception value"
         | EExc x s1 => SR (CExc x) en s1 | ETimeout => STimeout | EStuck m => SStuck m
         end
     | SGlobal _ => SR CNorm en s
     | SPass => SR CNorm en s
-    end
-  end
+    end.
 
-with handle (fuel : nat) (en : env) (x : val) (hs : list (list string * option string * list stmt)) (s : st)
-  {struct fuel} : sres :=
-  match fuel with
-  | O => STimeout
-  | S f =>
+Definition handle_step (R : recs) (en : env) (x : val) (hs : list (list string * option string * list stmt)) (s : st) : sres :=
     match hs with
     | [] => SR (CExc x) en s
     | (classes, nm, body) :: r =>
         if exc_matches P x classes then
           let en1 := ("__exc__", x) :: match nm with Some n => aset n x en | None => en end in
-          match exec_block f en1 body s with
+          match r_exec_block R en1 body s with
           | SR c en2 s2 => SR c (match en2 with ("__exc__", _) :: en3 => en3 | _ => en2 end) s2
           | r => r
           end
-        else handle f en x r s
-    end
-  end
+        else r_handle R en x r s
+    end.
 
-with exec_for (fuel : nat) (en : env) (t : target) (vs : list val) (body : list stmt) (s : st) {struct fuel} : sres :=
-  match fuel with
-  | O => STimeout
-  | S f =>
+Definition exec_for_step (R : recs) (en : env) (t : target) (vs : list val) (body : list stmt) (s : st) : sres :=
     match vs with
     | [] => SR CNorm en s
     | v :: r =>
-        match assign f en t v s with
+        match r_assign R en t v s with
         | SR CNorm en1 s1 =>
-            match exec_block f en1 body s1 with
-            | SR CNorm en2 s2 => exec_for f en2 t r body s2
+            match r_exec_block R en1 body s1 with
+            | SR CNorm en2 s2 => r_exec_for R en2 t r body s2
             | x => x
             end
         | x => x
         end
-    end
-  end
+    end.
 
-with exec_block (fuel : nat) (en : env) (cs : list stmt) (s : st) {struct fuel} : sres :=
-  match fuel with
-  | O => STimeout
-  | S f =>
+Definition exec_block_step (R : recs) (en : env) (cs : list stmt) (s : st) : sres :=
     match cs with
     | [] => SR CNorm en s
     | c :: r =>
-        match exec f en c s with
-        | SR CNorm en1 s1 => exec_block f en1 r s1
+        match r_exec R en c s with
+        | SR CNorm en1 s1 => r_exec_block R en1 r s1
         | x => x
         end
-    end
+    end.
+
+Definition bottom : recs := {|
+  r_eval := fun en e s => ETimeout;
+  r_evals := fun en es s => LTimeout;
+  r_evalkw := fun en kw s => (inr ETimeout, s);
+  r_ocall := fun g args kw s => ETimeout;
+  r_run_beh := fun b n => ETimeout;
+  r_call_value := fun vf args kw s => ETimeout;
+  r_call_method := fun vr m args kw s => ETimeout;
+  r_call_fun := fun name fd args kw s => ETimeout;
+  r_assign := fun en t v s => STimeout;
+  r_assigns := fun en ts vs s => STimeout;
+  r_exec := fun en c s => STimeout;
+  r_handle := fun en x hs s => STimeout;
+  r_exec_for := fun en t vs body s => STimeout;
+  r_exec_block := fun en cs s => STimeout
+|}.
+
+Fixpoint interp (fuel : nat) : recs :=
+  match fuel with
+  | O => bottom
+  | S f => let R := interp f in {|
+      r_eval := eval_step R;
+      r_evals := evals_step R;
+      r_evalkw := evalkw_step R;
+      r_ocall := ocall_step R;
+      r_run_beh := run_beh_step R;
+      r_call_value := call_value_step R;
+      r_call_method := call_method_step R;
+      r_call_fun := call_fun_step R;
+      r_assign := assign_step R;
+      r_assigns := assigns_step R;
+      r_exec := exec_step R;
+      r_handle := handle_step R;
+      r_exec_for := exec_for_step R;
+      r_exec_block := exec_block_step R
+    |}
   end.
+
+Definition eval (fuel : nat) := r_eval (interp fuel).
+Definition evals (fuel : nat) := r_evals (interp fuel).
+Definition evalkw (fuel : nat) := r_evalkw (interp fuel).
+Definition ocall (fuel : nat) := r_ocall (interp fuel).
+Definition run_beh (fuel : nat) := r_run_beh (interp fuel).
+Definition call_value (fuel : nat) := r_call_value (interp fuel).
+Definition call_method (fuel : nat) := r_call_method (interp fuel).
+Definition call_fun (fuel : nat) := r_call_fun (interp fuel).
+Definition assign (fuel : nat) := r_assign (interp fuel).
+Definition assigns (fuel : nat) := r_assigns (interp fuel).
+Definition exec (fuel : nat) := r_exec (interp fuel).
+Definition handle (fuel : nat) := r_handle (interp fuel).
+Definition exec_for (fuel : nat) := r_exec_for (interp fuel).
+Definition exec_block (fuel : nat) := r_exec_block (interp fuel).
 
 End Sem.
